@@ -383,6 +383,51 @@ def r18i(ctx, rep, rule="R18i"):
     rep.floor(rule, "scanners that can produce a Symbol token", n, 3)
 
 
+def r18j(ctx, rep, rule="R18j"):
+    """the reader does not canonicalise the escapes it lets into a symbol's spelling"""
+    from .. import shapes
+    facts = ctx["facts"]
+    rep.rule(rule, "names are compared by spelling, so spellings must be canonical: symbol->string decodes the escapes of a symbol's "
+             "spelling (parse_string), and the scanner lets the escape introducer `\\` into identifiers, so the parser may build a "
+             "symbol from a token's text only through a canonicalising step (decode, then re-encode as string->symbol does) — "
+             "never from the raw span. With the raw span, '\\x41; and 'A are two symbols both named \"A\".")
+    sites = []
+    for nm in ("marwood::parse::parse",):      # number-started tokens end at `;`, so they cannot hold a complete hex escape
+        f = facts.fn(nm)
+        if f is None:
+            continue
+        for bb, t in f.calls():
+            if callee(t) == "marwood::cell::Cell::new_symbol" and t["args"]:
+                sites.append((f, t["loc"], shapes.shape(f, t["args"][0], 4)))
+        for bb, j, st in f.stmts():
+            rv = st["rv"]
+            if rv["k"] == "agg" and rv.get("variant") == "Symbol" and (rv.get("adt") or "").endswith("cell::Cell"):
+                sites.append((f, st["loc"], shapes.shape(f, rv["ops"][0], 4)))
+    if not sites:
+        rep.anchor_lost(rule, "symbol constructions in the parser")
+        return
+    intro_is_ident = False
+    ii = facts.fn("marwood::lex::is_initial_identifier")
+    if ii is not None:
+        for bb, j, st in ii.stmts():
+            rv = st["rv"]
+            if rv["k"] == "bin" and rv["op"] == "Eq":
+                for o in (rv["a"], rv["b"]):
+                    c = op_const(o)
+                    if c is not None and c.get("ty") == "char" and c.get("int") == 92:
+                        intro_is_ident = True
+    for i, (f, loc, sh) in enumerate(sites):
+        key = "%s|%s|symbol#%d" % (rule, f.short.rsplit("::", 1)[-1], i + 1)
+        raw = re.fullmatch(r"(<T as string::ToString>::to_string\()?lex::Token::span\(.*\)\)?", sh) is not None
+        if raw and intro_is_ident:
+            rep.fail(rule, key, "%s builds a symbol from the raw text of a token, and the scanner admits `\\` into identifiers: the "
+                     "spellings \\x41; and A (or \\x041; and \\x41;) become different symbols whose symbol->string results are "
+                     "equal" % f.short, [loc])
+        else:
+            rep.ok(rule, key, "%s: %s" % (f.short, "the spelling goes through %s" % sh[:80] if not raw else
+                                          "raw token text, but the escape introducer is no identifier character"), [loc])
+
+
 def run(ctx, rep):
     r18a(ctx, rep)
     r18b(ctx, rep)
@@ -394,6 +439,7 @@ def run(ctx, rep):
     from . import tables
     tables.r18d(ctx, rep)
     r18i(ctx, rep)
+    r18j(ctx, rep)
     from . import C10
     C10.r10j(ctx, rep, rule="R18h")
     rep.rules["R18h"] = "symbol->string decodes every name string->symbol can build: " + rep.rules["R18h"]
